@@ -1,7 +1,7 @@
 """C14 -- migrating a legacy (peewee v2) database to the SQLite store loses nothing.
 
-Explorer L over configurations: every subset of 3 bucket ids (ASCII, unicode,
-watcher-style) x events per bucket {0,1,3,101} x bucket data {none, flat, nested}
+Explorer L over configurations: every subset of 4 bucket ids (ASCII, unicode,
+watcher-style, SQL-special characters) x events per bucket {0,1,3,101} x bucket data {none, flat, nested}
 x name {absent, given} x profile {testing, normal} x other-profile legacy file
 present or not.  The legacy store is written by the real PeeweeStorage at its
 default path in a private data dir, the default SqliteStorage is then created
@@ -21,11 +21,11 @@ from mc.core import Agg, Unit
 from mc.drivers import stores as S
 from mc.lattice import chunked
 
-BIDS = ("b1", "bü-ö", "aw-watcher-window_host")
+BIDS = ("b1", "bü-ö", "aw-watcher-window_host", "o'brien \"q\" %_;--")  # the last one: SQL-special characters
 NEV = (0, 1, 3, 101)
 BDATA = (None, {"k": "v"}, {"cfg": {"inner": [1, None, {"x": "ü"}]}, "n": 1.5})
 BOUNDS = {
-    "quick": {"bucket_id_subsets": 8, "events_per_bucket": list(NEV), "bucket_data": 3, "name": ["absent", "given"], "profiles": ["testing", "normal"], "other_profile_legacy_file": "present and absent for every case"},
+    "quick": {"bucket_id_subsets": 16, "events_per_bucket": list(NEV), "bucket_data": 3, "name": ["absent", "given"], "profiles": ["testing", "normal"], "other_profile_legacy_file": "present and absent for every case"},
     "thorough": {"as": "quick", "plus": "250 and 1001 events per bucket"},
 }
 RULE = (
@@ -182,7 +182,7 @@ def configs(ctx):
     out = []
     n = 0
     nevs = NEV + ((250, 1001) if ctx.thorough else ())
-    for k in range(0, 4):
+    for k in range(0, 5):
         for bids in itertools.combinations(BIDS, k):
             for nev, bd, name, testing in itertools.product(nevs, (None, 1, 2), (False, True), (True, False)):
                 n += 1
